@@ -1,5 +1,7 @@
 """./check <property> [--tier quick|thorough] [--replay path] [--update-baseline]"""
 import argparse
+import glob
+import hashlib
 import importlib
 import json
 import os
@@ -77,6 +79,8 @@ def check(prop, tier, seed, a):
     open_findings = [f for f in findings if f.get("status") == "open"]
     violations, undecided, known_hits = [], [], []
     os.makedirs(os.path.join(ROOT, "replay"), exist_ok=True)
+    for old in glob.glob(os.path.join(ROOT, "replay", f"{prop}-*.json")):
+        os.remove(old)
     for name, o in sorted(obs.items()):
         if o["status"] == "proved":
             continue
@@ -106,7 +110,7 @@ def check(prop, tier, seed, a):
         if name not in baseline and not rep["reproduced"] and baseline:
             undecided.append((name, o))
             continue
-        path = os.path.join("replay", f"{prop}-{abs(hash(name)) % 10**8:08d}.json")
+        path = os.path.join("replay", f"{prop}-{hashlib.sha1(name.encode()).hexdigest()[:10]}.json")
         json.dump(rep, open(os.path.join(ROOT, path), "w"), indent=1, default=str)
         violations.append((name, path, rep))
     missing = [n for n in baseline if n not in obs]
@@ -137,7 +141,8 @@ def check(prop, tier, seed, a):
         if kf["id"] not in seen:
             seen.add(kf["id"])
             print(f"KNOWN-FINDING: property={prop} {kf['id']}: {kf['what']}")
-    print(f"{prop}: obligations={n_ob} discharged={n_dis} undecided={len(undecided)} violations={len(violations)} "
+    n_b = sum(1 for o in obs.values() if o.get("bound"))
+    print(f"{prop}: obligations={n_ob - n_b}+{n_b} bounded-structure discharged={n_dis} undecided={len(undecided)} violations={len(violations)} "
           f"known={len(seen)} bounded={'%d evaluations' % bounded['evaluations'] if bounded else 'none'} wall={wall:.1f}s")
     if violations:
         for name, path, rep in violations:
@@ -163,8 +168,10 @@ def match_finding(findings, name, rep):
 
 
 def write_evidence(prop, tier, seed, cfg, contracts, obs, meta, bounded, violations, undecided, known_hits, wall, missing):
-    n_ob = len(obs)
-    n_dis = sum(1 for o in obs.values() if o["status"] == "proved")
+    unb = {n: o for n, o in obs.items() if not o.get("bound")}
+    bnd = {n: o for n, o in obs.items() if o.get("bound")}
+    n_ob = len(unb)
+    n_dis = sum(1 for o in unb.values() if o["status"] == "proved")
     backends = {}
     for o in obs.values():
         if o["status"] == "proved":
@@ -175,7 +182,7 @@ def write_evidence(prop, tier, seed, cfg, contracts, obs, meta, bounded, violati
         assumed |= set(m.get("assumed", []))
     slow = sorted(obs.items(), key=lambda kv: -kv[1]["secs"])[:3]
     samples = []
-    for name, o in list(sorted(obs.items()))[:6]:
+    for name, o in (list(sorted(unb.items()))[:5] + list(sorted(bnd.items()))[:2]):
         samples.append(dict(obligation=name, status=o["status"], backends=sorted(o["backends"]), paths=o["paths"], seconds=round(o["secs"], 4)))
     level = cfg.get("level", "other")
     if level == "proof" and (n_dis != n_ob):
@@ -192,10 +199,16 @@ def write_evidence(prop, tier, seed, cfg, contracts, obs, meta, bounded, violati
         undecided=[n for n, _ in undecided] + missing,
         known_findings=sorted({kf["id"] for kf, _ in known_hits}),
         samples=samples,
-        evaluations=n_ob + (bounded["evaluations"] if bounded else 0),
+        evaluations=len(obs) + (bounded["evaluations"] if bounded else 0),
         distinct_nontrivial=n_dis,
         rule="one obligation = one named clause of one contract scenario (all paths); non-trivial = discharged by a solver query or by ground evaluation on a feasible path",
     )
+    if bnd:
+        cov["bounded_structure"] = dict(
+            labelled="bounded",
+            note="obligations generated and discharged like the others, but from scenarios whose data-structure size is enumerated up to a bound (cell values symbolic); NOT counted in obligations/discharged",
+            obligations=len(bnd), discharged=sum(1 for o in bnd.values() if o["status"] == "proved"),
+            bounds=sorted({o["bound"] for o in bnd.values()}))
     if bounded:
         cov["bounded"] = dict(labelled="bounded", **{k: v for k, v in bounded.items() if k != "violations"})
     ev = dict(property_id=prop, tier=tier if tier in ("quick", "thorough") else "quick", seed=seed, level=level,
